@@ -553,7 +553,11 @@ class C09(Prop):
         if arrays:
             model_ok = model_ok and same(impl["array"], model["array"]) and agrees(impl["from_raster_array"], model["from_raster_array"])
 
-        undet = not determined
+        # float rounding of the warm-up quotient crosses a tie: the specification does not decide the warm-up in samples, so
+        # nothing is demanded of the implementation; the MODEL (exact float64 arithmetic) still has to agree with it
+        undet = (not determined) and model_ok
+        if not determined:
+            spec_ok = True
         feats = set()
         if valid and "data" in impl.get("recon", {}):
             l0, l1 = case["shapes"][0][0], case["shapes"][1][0]
@@ -765,7 +769,9 @@ class C09(Prop):
                 feats.add("cfg-only:lcm-above-every-denominator")
             if r["config"]["spp"] != r["config"]["size"]:
                 feats.add("cfg-only:spp!=size")
-        undet = not rep["warmup_determined"]
+        # nothing in the specification of a config-only case depends on the warm-up in samples (offsets exact, round trip
+        # unchanged); the model's float64 warm-up is compared exactly whatever the rounding
+        undet = False
         return outcome({"sets": impl_sets}, {"sets": model_sets}, {"sets": spec_sets}, spec_ok=spec_ok, model_ok=model_ok,
                        undetermined=undet, features=feats)
 
